@@ -34,6 +34,21 @@ func encTime(t time.Time) string {
 	return fmt.Sprintf("t%s.%d", s.String(), t.Nanosecond())
 }
 
+// encArg is encVariant for an operand on an op line: a date-time held in a zone other than Local carries
+// the zone as a suffix (`@name:offset`), so that a replay rebuilds the same representation; the model and
+// every result encoding ignore zones (operators see instants only)
+func encArg(v *variants.Variant) string {
+	s := encVariant(v)
+	if v != nil && v.Type() == variants.DateTime {
+		t := v.AsDateTime()
+		if name := t.Location().String(); name != "Local" {
+			_, off := t.Zone()
+			s += fmt.Sprintf("@%s:%d", name, off)
+		}
+	}
+	return s
+}
+
 func vArr(es ...*variants.Variant) *variants.Variant {
 	return variants.VariantFromArray(es)
 }
@@ -198,7 +213,7 @@ var hostFns []func(string) string
 
 func runOpCase(c *Ctx, m string, opIdx int, a, b *variants.Variant) string {
 	o := binOpsV[opIdx]
-	op := fmt.Sprintf("op %s %s %s %s", m, o.name, encVariant(a), encVariant(b))
+	op := fmt.Sprintf("op %s %s %s %s", m, o.name, encArg(a), encArg(b))
 	impl := safeCall(func() string { return outcome(o.f(mgrOf(m), a, b)) })
 	c.record(op, a.Type() != variants.Null && b.Type() != variants.Null)
 	c.count("op:" + o.name)
@@ -264,19 +279,19 @@ func propC06(c *Ctx) {
 				le, ok2 := asBoolOutcome(res["lessEqual"])
 				eq, ok3 := asBoolOutcome(res["equal"])
 				ne, ok4 := asBoolOutcome(res["notEqual"])
-				opl := fmt.Sprintf("op %s less %s %s", m, encVariant(a), encVariant(b))
+				opl := fmt.Sprintf("op %s less %s %s", m, encArg(a), encArg(b))
 				if ok1 && ok2 && ok3 && le != (lt || eq) {
 					c.fail(Failure{Kind: "oracle", Op: opl, Impl: res["less"] + " / " + res["lessEqual"] + " / " + res["equal"], Note: "a<=b must be a<b or a=b"})
 				}
 				gt, ok5 := asBoolOutcome(res["more"])
 				ge, ok6 := asBoolOutcome(res["moreEqual"])
 				if ok5 && ok6 && ok3 && ge != (gt || eq) {
-					c.fail(Failure{Kind: "oracle", Op: fmt.Sprintf("op %s moreEqual %s %s", m, encVariant(a), encVariant(b)), Impl: res["more"] + " / " + res["moreEqual"] + " / " + res["equal"], Note: "a>=b must be a>b or a=b"})
+					c.fail(Failure{Kind: "oracle", Op: fmt.Sprintf("op %s moreEqual %s %s", m, encArg(a), encArg(b)), Impl: res["more"] + " / " + res["moreEqual"] + " / " + res["equal"], Note: "a>=b must be a>b or a=b"})
 				}
 				if a.Type() == b.Type() && ok6 {
 					leRev := safeCall(func() string { return outcome(mgrOf(m).LessEqual(b, a)) })
 					if l, ok := asBoolOutcome(leRev); ok && l != ge {
-						c.fail(Failure{Kind: "oracle", Op: fmt.Sprintf("op %s moreEqual %s %s", m, encVariant(a), encVariant(b)), Impl: res["moreEqual"] + " vs LessEqual(b,a) " + leRev, Note: "a>=b must equal b<=a for operands of one type"})
+						c.fail(Failure{Kind: "oracle", Op: fmt.Sprintf("op %s moreEqual %s %s", m, encArg(a), encArg(b)), Impl: res["moreEqual"] + " vs LessEqual(b,a) " + leRev, Note: "a>=b must equal b<=a for operands of one type"})
 					}
 				}
 				// indexing follows list semantics
@@ -292,7 +307,7 @@ func propC06(c *Ctx) {
 						want = "ok " + encVariant(a.GetByIndex(i))
 					}
 					if res["getElement"] != want {
-						c.fail(Failure{Kind: "oracle", Op: fmt.Sprintf("op %s getElement %s %s", m, encVariant(a), encVariant(b)), Impl: res["getElement"], Note: "indexing must follow list semantics: expected " + want})
+						c.fail(Failure{Kind: "oracle", Op: fmt.Sprintf("op %s getElement %s %s", m, encArg(a), encArg(b)), Impl: res["getElement"], Note: "indexing must follow list semantics: expected " + want})
 					}
 				}
 				// membership follows list semantics: x IN [e...] iff some x = e (the element converted to x's type),
@@ -311,7 +326,7 @@ func propC06(c *Ctx) {
 						return "ok b0"
 					})
 					if res["in"] != want {
-						c.fail(Failure{Kind: "oracle", Op: fmt.Sprintf("op %s in %s %s", m, encVariant(a), encVariant(b)), Impl: res["in"], Note: "membership must follow list semantics (x IN [e...] iff some x = e): expected " + want})
+						c.fail(Failure{Kind: "oracle", Op: fmt.Sprintf("op %s in %s %s", m, encArg(a), encArg(b)), Impl: res["in"], Note: "membership must follow list semantics (x IN [e...] iff some x = e): expected " + want})
 					}
 				}
 				if ok3 && ok4 && ne == eq {
@@ -330,7 +345,7 @@ func propC06(c *Ctx) {
 					bd, _ := mgrOf("u").Convert(b, variants.Double)
 					want := "ok " + encF64(math.Pow(ad.AsDouble(), bd.AsDouble()))
 					if res["pow"] != want {
-						c.fail(Failure{Kind: "oracle", Op: fmt.Sprintf("op %s pow %s %s", m, encVariant(a), encVariant(b)), Impl: res["pow"], Note: "'^' must be exponentiation: expected " + want})
+						c.fail(Failure{Kind: "oracle", Op: fmt.Sprintf("op %s pow %s %s", m, encArg(a), encArg(b)), Impl: res["pow"], Note: "'^' must be exponentiation: expected " + want})
 					}
 				}
 			}
@@ -339,7 +354,7 @@ func propC06(c *Ctx) {
 	// unary
 	for _, a := range all {
 		for _, name := range []string{"not", "neg"} {
-			op := fmt.Sprintf("op u %s %s", name, encVariant(a))
+			op := fmt.Sprintf("op u %s %s", name, encArg(a))
 			nm := name
 			impl := safeCall(func() string {
 				if nm == "not" {
@@ -414,11 +429,24 @@ func decVariant(s string) *variants.Variant {
 		n, _ := strconv.ParseInt(s[1:], 10, 64)
 		return vSpan(time.Duration(n))
 	case 't':
+		zone := ""
+		if i := strings.IndexByte(s, '@'); i >= 0 {
+			zone, s = s[i+1:], s[:i]
+		}
 		p := strings.Split(s[1:], ".")
 		bs, _ := new(big.Int).SetString(p[0], 10)
 		ns, _ := strconv.ParseInt(p[1], 10, 64)
 		sec := int64(new(big.Int).And(bs, new(big.Int).SetUint64(math.MaxUint64)).Uint64())
-		return vTime(time.Unix(sec, ns))
+		t := time.Unix(sec, ns)
+		if zp := strings.Split(zone, ":"); len(zp) == 2 {
+			off, _ := strconv.Atoi(zp[1])
+			if zp[0] == "UTC" {
+				t = t.UTC()
+			} else {
+				t = t.In(time.FixedZone(zp[0], off))
+			}
+		}
+		return vTime(t)
 	case 'a':
 		inner := s[2 : len(s)-1]
 		var es []*variants.Variant
@@ -443,7 +471,7 @@ func decVariant(s string) *variants.Variant {
 // ---- C07 ------------------------------------------------------------------------------------
 
 func runConvCase(c *Ctx, m string, a *variants.Variant, t variants.VariantType) string {
-	op := fmt.Sprintf("conv %s %s %d", m, encVariant(a), int(t))
+	op := fmt.Sprintf("conv %s %s %d", m, encArg(a), int(t))
 	var res *variants.Variant
 	impl := safeCall(func() string {
 		r, err := mgrOf(m).Convert(a, t)
@@ -492,7 +520,7 @@ func runConvCase(c *Ctx, m string, a *variants.Variant, t variants.VariantType) 
 func roundTrips(c *Ctx, a *variants.Variant) {
 	u := mgrOf("u")
 	check := func(via variants.VariantType, label string) {
-		op := fmt.Sprintf("conv u %s %d", encVariant(a), int(via))
+		op := fmt.Sprintf("conv u %s %d", encArg(a), int(via))
 		r := safeCall(func() string {
 			x, err := u.Convert(a, via)
 			if err != nil {
